@@ -66,6 +66,37 @@ thread_local! {
     static AMBIENT: std::cell::Cell<Ambient> = const { std::cell::Cell::new(Ambient { generous_timeout: false, recreate: false, roomy: false, stream: false }) };
 }
 
+thread_local! {
+    /// handle conversions go through the `From<&Addr>` impls instead of the `Addr` methods
+    /// (which use the `From<Addr>` ones): switched on together with the recreate passes, which
+    /// are neutral re-runs anyway
+    static ALT_CONV: std::cell::Cell<bool> = const { std::cell::Cell::new(false) };
+}
+
+pub fn set_alt_conv(on: bool) {
+    ALT_CONV.with(|c| c.set(on));
+}
+
+pub fn alt_conv() -> bool {
+    ALT_CONV.with(|c| c.get())
+}
+
+pub fn to_sender(a: &hannibal::Addr<P>) -> hannibal::Sender<crate::world::Note> {
+    if alt_conv() { hannibal::Sender::from(a) } else { a.sender() }
+}
+
+pub fn to_weak_sender(a: &hannibal::Addr<P>) -> hannibal::WeakSender<crate::world::Note> {
+    if alt_conv() { hannibal::WeakSender::from(a) } else { a.weak_sender() }
+}
+
+pub fn to_weak_caller(a: &hannibal::Addr<P>) -> hannibal::WeakCaller<crate::world::Ask> {
+    if alt_conv() { hannibal::WeakCaller::from(a) } else { a.weak_caller() }
+}
+
+pub fn to_weak_addr(a: &hannibal::Addr<P>) -> hannibal::WeakAddr<P> {
+    if alt_conv() { hannibal::WeakAddr::from(a) } else { a.downgrade() }
+}
+
 pub fn set_ambient(a: Ambient) {
     AMBIENT.with(|c| c.set(a));
 }
